@@ -180,7 +180,7 @@ def monitor_scripts(tier, seed):
     rest = [s for s in deep if s not in set(closing)]
     rnd.shuffle(closing)
     rnd.shuffle(rest)
-    nclose, nrest = (40, 40) if tier == "quick" else (400, 600)
+    nclose, nrest = (25, 25) if tier == "quick" else (400, 600)
     deep_sel = closing[:nclose] + rest[:nrest]
     allscripts = sorted(set(scripts) | set(deep_sel))
     return vs, allscripts, {"gen_states": gen_states, "gen_deep_states": r.distinct, "resets": resets,
@@ -234,7 +234,7 @@ def part_monitor(vh, tier, seed, work):
               open(sp, "w"))
     out = vh_run(vh, ["monitor-replay", "--scripts", sp, "--out", tp], "monitor-replay")
     log("monitor replay:", out.strip().splitlines()[-1])
-    nfree = 200 if tier == "quick" else 4000
+    nfree = 150 if tier == "quick" else 4000
     out = vh_run(vh, ["monitor-free", "--out", fp, "--seed", str(seed), "--runs", str(nfree)], "monitor-free")
     log("monitor free:  ", out.strip().splitlines()[-1])
     lines, flines = read_trace(tp), read_trace(fp)
@@ -365,10 +365,147 @@ def part_withdraw(vh, tier, seed, work):
                 "samples": sample_scripts(scripts), "binding_selftest": withdraw_selftest(lines)})
     return cov, findings, drift, {"scripts": sp, "seed": seed}
 
+
+# ------------------------------------------------------------------------------------------------ part: balance
+
+BAL_KNOWN = ["BalanceTraceKnownA.cfg", "BalanceTraceKnownB.cfg"]
+
+
+def balance_plans(tier, seed):
+    cfg = open(os.path.join(SPECDIR, "MC_balance_gen.cfg")).read()
+    if tier != "quick":
+        cfg = cfg.replace("MaxDecisions = 4", "MaxDecisions = 5")
+    r = vlib.tlc(SPECDIR, "BalanceGen", "g.cfg", workers=2, timeout=1800, heap=HEAP, deadlock=False, extra_files={"g.cfg": cfg})
+    vlib.tlc_require_ok(r, "J2 BalanceGen")
+    answers = printed(r.out, "ANSWERS")[0]
+    keys = sorted(set((tuple(sorted(p["fires"])), p["thr"], tuple((o["op"], o["v"]) for o in p["ops"]))
+                      for p in printed(r.out, "PLAN")))
+    mx = [a for i, a in enumerate(keys) if a[2] and not (i + 1 < len(keys) and keys[i + 1][:2] == a[:2]
+                                                           and keys[i + 1][2][:len(a[2])] == a[2])]
+    random.Random(seed).shuffle(mx)
+    n = 110 if tier == "quick" else 900
+    return answers, mx[:n], {"gen_states": r.distinct, "plans_available": len(mx)}
+
+
+def balance_selftest(lines):
+    """(a) an answer the driver gave is changed from not-below to below: the loop is then seen not to withdraw on a
+    low balance; (b) the case of an iteration is changed (conformance)."""
+    def pick(pred):
+        for r in split_runs(lines):
+            for i, l in enumerate(r):
+                if pred(r, i):
+                    return r, i
+        return None, None
+    run, i = pick(lambda r, i: r[i]["k"] == "qret" and r[i]["latest"] and r[i]["a"]["name"] in ("above", "equal")
+                  and r[0]["thr"] == "set" and i + 1 < len(r) and r[i + 1]["k"] == "loop" and r[i + 1]["cases"] == ["check-result"])
+    if run is None:
+        return {"ok": False, "why": "no run with a not-low answer taken"}
+    a = [dict(l) for l in run]
+    a[i]["a"] = {"name": "below", "err": False, "cmp": "below"}
+    fa, _ = judge("balance", "BalanceTrace", "BalanceTrace.cfg", a)
+    b = [dict(l) for l in run]
+    b[i + 1]["cases"] = ["withdraw-result"]
+    fb, _ = judge("balance", "BalanceTrace", "BalanceTraceConform.cfg", b)
+    res = {"corrupt_answer": fa[0].invariant if fa else None, "corrupt_case": fb[0].invariant if fb else None}
+    res["ok"] = bool(fa) and bool(fb)
+    return res
+
+
+def part_balance(vh, tier, seed, work):
+    cov = {"configs": [j1("MC_Balance", "MC_balance_intended.cfg", "balance"), j1("MC_Balance", "MC_balance_asfound.cfg", "balance"),
+                       j1("MC_Balance", "MC_balance_live.cfg", "balance")]}
+    r = vlib.tlc(SPECDIR, "MC_Balance", "MC_balance_defect.cfg", workers=TLC_WORKERS, timeout=600, heap=HEAP, deadlock=False)
+    cov["model_reproduces_asfound_defect"] = (r.violated == "WithdrawTickJustified")
+    answers, plans, gcov = balance_plans(tier, seed)
+    cov.update(gcov)
+    sp, tp, fp = [os.path.join(work, n) for n in ("bal-plans.json", "bal-trace.ndjson", "bal-free.ndjson")]
+    json.dump({"answers": {a["name"]: a for a in answers},
+               "plans": [{"fires": list(f), "thr": t, "ops": [{"op": o, "v": v} for o, v in ops]} for f, t, ops in plans]},
+              open(sp, "w"))
+    out = vh_run(vh, ["balance-replay", "--scripts", sp, "--out", tp], "balance-replay")
+    log("balance replay:", out.strip().splitlines()[-1])
+    nfree = 40 if tier == "quick" else 600
+    out = vh_run(vh, ["balance-free", "--out", fp, "--seed", str(seed), "--runs", str(nfree)], "balance-free")
+    log("balance free:  ", out.strip().splitlines()[-1])
+    lines, flines = read_trace(tp), read_trace(fp)
+    for l in flines:
+        l["run"] = "free%d/seed%d" % (l["run"], seed)
+    allruns = split_runs(lines) + split_runs(flines)
+    clear = [l for r in allruns if not any(x.get("amb") for x in r) for l in r]
+    findings, states = judge("balance", "BalanceTrace", "BalanceTrace.cfg", lines + flines)
+    for cfg in BAL_KNOWN:      # the two faces of the one as-found defect: judged apart, one witness each
+        fs, _ = judge("balance", "BalanceTrace", cfg, lines + flines, max_findings=1)
+        findings += fs
+    drift, _ = judge("balance", "BalanceTrace", "BalanceTraceConform.cfg", clear)
+    cov.update({"scripts_replayed": len(plans), "free_runs": nfree, "trace_lines": len(lines) + len(flines),
+                "trace_states_judged": states, "runs_left_out_of_conformance_as_ambiguous": len(allruns) - len(split_runs(clear)),
+                "withdrawals_observed": sum(l.get("cases", []).count("withdraw-start") for l in lines + flines),
+                "queries_answered": sum(1 for l in lines + flines if l["k"] == "qret"),
+                "samples": [json.dumps({"fires": f, "thr": t, "ops": [o + (":" + v if v else "") for o, v in ops]}) for f, t, ops in plans[:3]],
+                "binding_selftest": balance_selftest(lines)})
+    return cov, findings, drift, {"plans": sp, "seed": seed}
+
+
+# ------------------------------------------------------------------------------------------------ part: watchdog
+
+def watchdog_selftest(lines):
+    """(a) a run stopped before its timeout is given a broadcast; (b) the report to the service is dropped."""
+    runs = [r for r in split_runs(lines) if any(l["k"] == "ended" and l["via"] == "stop" for l in r)]
+    if not runs:
+        return {"ok": False, "why": "no stopped run"}
+    a = [dict(l) for l in runs[0]]
+    for l in a:
+        if l["k"] == "ended":
+            l["bcasts"] = 1
+    fa, _ = judge("watchdog", "WatchdogTrace", "WatchdogTrace.cfg", a)
+    b = [dict(l) for l in runs[0]]
+    for l in b:
+        if l["k"] in ("ended", "post"):
+            l["notified"] = 0
+    fb, _ = judge("watchdog", "WatchdogTrace", "WatchdogTrace.cfg", b)
+    res = {"add_broadcast_after_stop": fa[0].invariant if fa else None, "drop_report": fb[0].invariant if fb else None}
+    res["ok"] = bool(fa) and bool(fb)
+    return res
+
+
+def part_watchdog(vh, tier, seed, work):
+    cov = {"configs": [j1("Watchdog", "MC_watchdog_intended.cfg", "watchdog"), j1("Watchdog", "MC_watchdog_asfound.cfg", "watchdog")]}
+    r = vlib.tlc(SPECDIR, "Watchdog", "MC_watchdog_defect.cfg", workers=1, timeout=600, heap=HEAP, deadlock=False)
+    cov["model_reproduces_asfound_defect"] = (r.violated == "NothingLeft")
+    r = vlib.tlc(SPECDIR, "WatchdogGen", "MC_watchdog_gen.cfg", workers=1, timeout=600, heap=HEAP, deadlock=False)
+    vlib.tlc_require_ok(r, "J2 WatchdogGen")
+    keys = sorted(set((p["fires"], tuple((o["op"], o["v"]) for o in p["ops"])) for p in printed(r.out, "SCRIPT")))
+    scripts = [a for i, a in enumerate(keys) if a[1] and not (i + 1 < len(keys) and keys[i + 1][0] == a[0]
+                                                                and keys[i + 1][1][:len(a[1])] == a[1])]
+    sp, tp, fp = [os.path.join(work, n) for n in ("wd-scripts.json", "wd-trace.ndjson", "wd-free.ndjson")]
+    json.dump({"scripts": [{"fires": f, "ops": [{"op": o, "v": v} for o, v in ops]} for f, ops in scripts]}, open(sp, "w"))
+    out = vh_run(vh, ["watchdog-replay", "--scripts", sp, "--out", tp], "watchdog-replay")
+    log("watchdog replay:", out.strip().splitlines()[-1])
+    nfree = 60 if tier == "quick" else 1500
+    out = vh_run(vh, ["watchdog-free", "--out", fp, "--seed", str(seed), "--runs", str(nfree)], "watchdog-free")
+    log("watchdog free:  ", out.strip().splitlines()[-1])
+    lines, flines = read_trace(tp), read_trace(fp)
+    for l in flines:
+        l["run"] = "free%d/seed%d" % (l["run"], seed)
+    findings, states = judge("watchdog", "WatchdogTrace", "WatchdogTrace.cfg", lines + flines)
+    for cfg in ("WatchdogTraceKnownA.cfg", "WatchdogTraceKnownB.cfg"):
+        fs, _ = judge("watchdog", "WatchdogTrace", cfg, lines + flines, max_findings=1)
+        findings += fs
+    drift, _ = judge("watchdog", "WatchdogTrace", "WatchdogTraceConform.cfg", lines + flines)
+    cov.update({"gen_states": r.distinct, "scripts_replayed": len(scripts), "free_runs": nfree,
+                "trace_lines": len(lines) + len(flines), "trace_states_judged": states,
+                "free_runs_timeout_won": sum(1 for l in flines if l["k"] == "timeout"),
+                "free_runs_stop_won": sum(1 for l in flines if l["k"] == "ended" and l["via"] == "stop"),
+                "samples": [json.dumps({"fires": f, "ops": [o + (":" + v if v else "") for o, v in ops]}) for f, ops in scripts[:3]],
+                "binding_selftest": watchdog_selftest(lines)})
+    return cov, findings, drift, {"scripts": sp, "seed": seed}
+
 # ------------------------------------------------------------------------------------------------ the check
 
-PARTS = [("monitor", part_monitor), ("withdraw", part_withdraw)]
-TRACE = {"monitor": ("MonitorTrace", MON_INV), "withdraw": ("WithdrawTrace", "WithdrawTrace.cfg")}
+PARTS = [("monitor", part_monitor), ("withdraw", part_withdraw), ("balance", part_balance),
+         ("watchdog", part_watchdog)]
+TRACE = {"monitor": ("MonitorTrace", MON_INV), "withdraw": ("WithdrawTrace", "WithdrawTrace.cfg"),
+         "balance": ("BalanceTrace", "BalanceTrace.cfg"), "watchdog": ("WatchdogTrace", "WatchdogTrace.cfg")}
 
 
 def run(pid, tier, seed, replay):
@@ -381,9 +518,18 @@ def run(pid, tier, seed, replay):
     violations, drift_total = [], 0
     states = transitions = traces = evals = 0
     selftests = {}
-    for name, fn in PARTS:
-        cov, findings, drift, meta = fn(vh, tier, seed, work)
+    def timed(fn):
+        t = time.time()
+        res = fn(vh, tier, seed, work)
+        res[0]["wall_s"] = round(time.time() - t, 1)
+        return res
+    with concurrent.futures.ThreadPoolExecutor(max_workers=2) as ex:      # two parts at a time, two TLC workers each
+        futures = [(name, ex.submit(timed, fn)) for name, fn in PARTS]
+        results = [(name, f.result()) for name, f in futures]
+    for name, (cov, findings, drift, meta) in results:
         coverage["parts"][name] = cov
+        log("part %-9s %5.1fs  %d runs, %d lines judged" % (name, cov["wall_s"], cov.get("scripts_replayed", 0) + cov.get("free_runs", 0),
+                                                             cov.get("trace_lines", 0)))
         for c in cov.get("configs", []):
             states += c["states"]
             transitions += c["transitions"]
